@@ -131,7 +131,13 @@ ReadOnly(r) ==
              ELSE IF r.ev = "ConcRun"
                   THEN [ok |-> ConcConforms(r) /\ ConcSequential(r),
                         expected |-> [conforms |-> ConcConforms(r), sequential |-> ConcSequential(r), threads |-> ConcExpected(r.a),
-                                      alone |-> [t \in DOMAIN r.a.ops |-> Alone(r.a.shape, r.a.ops[t]).forms]]]
+                                      alone |-> [t \in DOMAIN r.a.ops |-> Alone(r.a.shape, r.a.ops[t]).forms],
+                                      seqfiles |-> FilesExpected(r.a.shape, RunSequential(r.a.shape, r.a.ops))]]
+             ELSE IF r.ev = "ConcFree"
+                  THEN [ok |-> FreeConforms(r) /\ FreeSequential(r),
+                        expected |-> [conforms |-> FreeConforms(r), sequential |-> FreeSequential(r), threads |-> <<>>,
+                                      alone |-> [t \in DOMAIN r.a.ops |-> Alone(r.a.shape, r.a.ops[t]).forms],
+                                      seqfiles |-> FilesExpected(r.a.shape, RunSequential(r.a.shape, r.a.ops))]]
              ELSE IF r.ev = "Query"
                   THEN [ok |-> QueryOK(st, r), expected |-> LET e == EvalQ(st, <<>>, r.a.q) IN [ok |-> e.ok, rows |-> SetToSeq(e.rows)]]
              ELSE IF r.ev = "Parse"
